@@ -1,10 +1,56 @@
 import Vegeta.Go.Proto
-/-! Driver operations of property C08 (ops are named `c08.<name>`). -/
-namespace Vegeta.Driver.C08
-open Vegeta.Go Vegeta.Go.Proto
+import Vegeta.Model.DecoderFor
+/-! Driver operations of property C08 (ops are named `c08.<name>`).
 
-def handle (_op : String) (args : List String) : Option String :=
-  match _op with
+`c08.sniff <orig> <ntrials> {<nreads> {<n> <k>}… <accept>}… <nfinal> {<n> <k>}…`
+runs the `DecoderFor` loop of the model on the stream `orig` with the given trial decoders
+(read scripts + accept bit) and then the given reads on the final reader.
+Answer: `ok <chosen index|nil> buf=<len> under=<len> | t <nreads> <len>… <bytes seen> | … | f <nreads> <len>… <bytes yielded>`
+(one `t` group per executed trial; the `f` group only when a decoder was chosen).
+
+`c08.first csv <int>` / `c08.first json`: first byte of an encoded record.
+-/
+namespace Vegeta.Driver.C08
+open Vegeta.Go Vegeta.Go.Proto Vegeta.Model.DecoderFor
+
+def readReq : P ReadReq := do
+  let n ← nat
+  let k ← nat
+  pure { n := n, k := k }
+
+def trialDec : P TrialDec := do
+  let sc ← listOf readReq
+  let a ← bool
+  pure { script := sc, accept := a }
+
+def showReads (tag : String) (gots : List Bytes) : String :=
+  tag ++ " " ++ toString gots.length ++ gots.foldl (fun s g => s ++ " " ++ toString g.length) "" ++
+    " " ++ hexEncode gots.flatten
+
+def handle (op : String) (args : List String) : Option String :=
+  match op with
+  | "c08.sniff" => do
+    let ((orig, trials, fin), _) ← (do
+      let o ← bytes
+      let ts ← listOf trialDec
+      let f ← listOf readReq
+      pure (o, ts, f)).run args
+    let (res, seens) := decoderFor orig trials
+    let ts := seens.foldl (fun s g => s ++ " | " ++ showReads "t" g) ""
+    match res with
+    | none => pure ("ok nil" ++ ts)
+    | some (i, st) =>
+      let (gots, _) := finalRun st fin
+      pure ("ok " ++ toString i ++ " buf=" ++ toString st.buf.length ++ " under=" ++ toString st.under.length ++
+        ts ++ " | " ++ showReads "f" gots)
+  | "c08.first" => do
+    let (kind, rest) ← (tok).run args
+    if kind == "csv" then
+      let (ts, _) ← (int).run rest
+      pure ("ok " ++ toString ((csvRecord ts []).headD 0))
+    else if kind == "json" then
+      pure ("ok " ++ toString ((jsonRecord []).headD 0))
+    else none
   | _ => none
 
 end Vegeta.Driver.C08
